@@ -196,7 +196,7 @@ int main()
                     o << (i ? "," : "") << "[" << jstr(e.tag) << "," << e.a << "," << e.b << "," << e.p.nmatop << "," << e.p.k << "," << jstr(e.p.flags);
                     if (e.tag == "eigs.adjust") o << "," << jstr(e.p.small) << "," << jstr(e.p.pairs);
                     if (e.has_kr) o << ",{\"k\":" << e.kr.k << ",\"m\":" << e.kr.m << ",\"scale\":" << e.kr.scale << ",\"rel\":" << e.kr.rel << ",\"orth\":" << e.kr.orth
-                                    << ",\"fperp\":" << e.kr.fperp << ",\"shape\":" << e.kr.shape << ",\"sym\":" << e.kr.sym << ",\"beta\":" << e.kr.beta_err << ",\"finite\":" << (e.kr.finite ? "true" : "false") << "}";
+                                    << ",\"fperp\":" << e.kr.fperp << ",\"shape\":" << e.kr.shape << ",\"sym\":" << e.kr.sym << ",\"beta\":" << e.kr.beta_err << ",\"minsub\":" << e.kr.minsub << ",\"finite\":" << (e.kr.finite ? "true" : "false") << "}";
                     o << "]";
                 }
                 o << "]}";
